@@ -289,3 +289,43 @@ func H07_resubscribe() {
 	}
 	vrtReach("C07.resubscribed")
 }
+
+// H07j_acknowledged_then_jammed: a persistent client subscribes to a filter that matches more retained data
+// than its outgoing ring and the pipe hold (six messages of 6000 bytes, ring 16384), reads the SUBACK and nothing
+// more - the retained delivery that follows the SUBACK jams - and then drops the connection. The
+// subscription was acknowledged, so it is part of the session: the next connection of that client
+// (CleanSession=0) is answered SessionPresent=1 and receives a live publish on the filter without
+// subscribing again (round-9 changes C07-17 / C10-18: the session was only told about the filters at the
+// very end of the request, behind the retained loop, which returns early when a write fails).
+func H07j_acknowledged_then_jammed() {
+	topics.MaxQosAllowed = 2
+	b := vrtBroker("mockSuccess")
+	p, _ := b.connect(vrtConnectPkt([]byte("p"), true))
+	for i := 0; i < 6; i++ { // (the pipe takes one more sender block after the SUBACK: 36000 bytes are well above ring + block)
+		pk := vrtPublishOfLen("r/"+string(rune('1'+i)), 6000, byte('a'+i))
+		pk.Flags |= 1
+		vrtExchange(p, pk)
+	}
+	c, ack := b.connect(vrtConnectPkt([]byte("x"), false))
+	vrtAssert("C07.harness_connack", vrtIsConnack(ack, false, 0))
+	c.peerStall(5 + 100) // the SUBACK and a little more is all the client still takes
+	gq := byte(vrtChoice("granted", 2))
+	c.peerSend(specEncode(&specPkt{Typ: specSUBSCRIBE, ID: 7, Topics: [][]byte{[]byte("r/+")}, QoS: []byte{gq}}))
+	vrtQuiesce()
+	c.mu.Lock()
+	seen := append([]byte(nil), c.out...)
+	c.mu.Unlock()
+	vrtAssert("C07.suback_or_close", len(seen) >= 5 && vrtBytesEq(seen[:5], []byte{0x90, 3, 0, 7, gq}))
+	vrtEnd(c, 1+vrtChoice("end", 1)) // dropped
+	vrtQuiesce()
+	vrtAssert("C07.harness_old_connection_gone", c.isClosed())
+	c2, ack2 := b.connect(vrtConnectPkt([]byte("x"), false))
+	vrtAssert("C10.session_present_flag", vrtIsConnack(ack2, true, 0))
+	vrtExchange(c2, &specPkt{Typ: specPINGREQ})
+	c2.peerTake()
+	vrtExchange(p, &specPkt{Typ: specPUBLISH, Topic: []byte("r/live"), Payload: []byte("m")})
+	got, ok := vrtParse(c2.peerTake())
+	vrtAssert("C07.stream_wellformed", ok)
+	vrtAssert("C07.acknowledged_subscription_is_in_the_session", len(got) == 1 && got[0].Typ == specPUBLISH && vrtBytesEq(got[0].Topic, []byte("r/live")))
+	vrtReach("C07.acknowledged_then_jammed")
+}
